@@ -215,8 +215,13 @@ fn run_case(idx: usize, line: &str, dir: &str, stage_bin: &str, out: &mut Out) {
     let want_sibling = spec.get("sib") == "1";
     let sibling: std::cell::RefCell<Option<subprocess::Popen>> = std::cell::RefCell::new(None);
     let stage_bin_s = stage_bin.to_string();
+    let pause_ms: u64 = spec.get("pause").parse().unwrap_or(0);
     let at_user = || {
         trace::log(format_args!("user"));
+        if pause_ms > 0 {
+            // the caller keeps the handle for a while: children that end quickly have ended by the time it is dropped
+            std::thread::sleep(Duration::from_millis(pause_ms));
+        }
         if want_sibling {
             let was = trace::set_on(false);
             let r = subprocess::Popen::create(
